@@ -4,6 +4,10 @@ import json, os, subprocess
 ROOT = os.path.dirname(os.path.dirname(os.path.abspath(__file__)))
 
 CHECKS = {
+    "C13": dict(level="model_checking", design="DESIGN.md section 5 C13",
+                technique="TLC model checking of the resolution rules (Names.tla) + TLC validation of the real checker's verdict and the real run's output on declaration/use histories",
+                text="D: on every DEFtype configuration of the first letter, every declaration state of a base name, every pair of suffixes and both scopes TLC checks the statements of C13 on Names.tla (default SINGLE unless DEFtype, bare = default-suffixed, five suffixes distinct, extended declaration excludes other suffixes, local by default). V: the 5 x 7 DEFtype letter-range configurations, every single and every pair (sampled in quick) of declaration/use statements of one base name in main, suffix probes after DIM AS / CONST in main and in a SUB, main declaration x pairs of SUB statements, and seeded random histories over two bases are rendered with random letter case per occurrence, checked and run by the real code; TLC compares verdict and printed values with the three-valued oracle.",
+                note="Trusted: renderer, TLC. Histories the documents leave open (declaration after use, re-declaration, shadowing of shared names/constants in a SUB) are only required not to panic."),
     "C18": dict(level="model_checking", design="DESIGN.md section 5 C18",
                 technique="TLC model checking of Files.tla (handle table, store) + TLC validation of recorded file histories (stdout, file bytes, result)",
                 text="D: TLC explores every history of up to 6 (7) operations (OPEN in three modes, PRINT #, LINE INPUT #, EOF, CLOSE, CLOSE all, KILL) over two handles and two names and checks the handle-table / cursor invariants, that an error changes nothing but the status, that OUTPUT truncates and APPEND keeps, that PRINT # appends exactly text + CR LF, that CLOSE frees the handle and that EOF is true exactly at the end. V: straight-line programs in a scratch directory - write/close/read-back with every mix of LINE INPUT # / INPUT # incl. a read past the end, OUTPUT vs APPEND, all protocol histories of 1-2 operations and seeded ones of 3-8 over a 31-operation alphabet, RANDOM files (FIELD/LSET/PUT/GET, records in random order), console INPUT / LINE INPUT on the same texts - are run on the real interpreter; TLC runs Files.tla on each recorded history and compares stdout, the bytes of every file afterwards and the final result (codes 55/53/62 exactly, any file error 50..76 for closed / wrong-mode handles).",
